@@ -12,6 +12,7 @@ mkdir -p $SB
 head=$(git -C /repo rev-parse HEAD)
 if [ ! -d $SB/repo ]; then git -C /repo worktree add -q --detach $SB/repo $head || exit 1; fi
 git -C $SB/repo checkout -q -- . && git -C $SB/repo clean -fdq -e target && git -C $SB/repo checkout -q --detach $head
-rsync -a --delete --exclude target --exclude 'target-*' --exclude /out --exclude /evidence --exclude .git /verif/ $SB/verif/
+# SANDBOX_NOSYNC=1: keep the copy of /verif made earlier (long background runs are then independent of edits)
+[ -n "$SANDBOX_NOSYNC" ] && [ -d $SB/verif ] || rsync -a --delete --exclude target --exclude 'target-*' --exclude /out --exclude /evidence --exclude .git /verif/ $SB/verif/
 mkdir -p $SB/verif/out $SB/verif/evidence
 echo "sandbox ready at $SB (repo $head)"
